@@ -148,7 +148,7 @@ pub fn c14_object(a: &dyn Aml, raw: Option<&[u8]>, reference: &[u8], what: K, cx
     }
     // the crate's own stateful sinks must end in the same state however the stream was chunked:
     // compare with the same sink fed the reference stream one byte at a time
-    if reference.len() <= SDT_SINK_MAX {
+    if reference.len() <= 640 {
         if let Ok((direct, bytewise)) = catch(|| {
             let mut s1 = sdt::Sdt::new(*b"SINK", 36, 1, *b"VERIF_", *b"SINKSINK", 1);
             a.to_aml_bytes(&mut s1);
